@@ -46,16 +46,18 @@ class _SmallUuidModule:
 
 def _patched(su, base, ln, mx):
     alpha = su._ALPHABET_ORIG[:base]
-    su._ALPHABET = list(alpha)
-    su._INDEX_ALPHABET = dict((c, i) for i, c in enumerate(alpha))
+    su._ALPHABET = ''.join(alpha) if su._ALPHA_IS_STR else list(alpha)
+    if hasattr(su, '_INDEX_ALPHABET'):
+        su._INDEX_ALPHABET = dict((c, i) for i, c in enumerate(alpha))
     su._SHORT_GUID_LEN = ln
     su.uuid = _SmallUuidModule(mx)
     return alpha
 
 
 def _unpatch(su):
-    su._ALPHABET = list(su._ALPHABET_ORIG)
-    su._INDEX_ALPHABET = dict((c, i) for i, c in enumerate(su._ALPHABET_ORIG))
+    su._ALPHABET = ''.join(su._ALPHABET_ORIG) if su._ALPHA_IS_STR else list(su._ALPHABET_ORIG)
+    if hasattr(su, '_INDEX_ALPHABET'):
+        su._INDEX_ALPHABET = dict((c, i) for i, c in enumerate(su._ALPHABET_ORIG))
     su._SHORT_GUID_LEN = 22
     su.uuid = real_uuid
 
@@ -244,8 +246,9 @@ def _judge(ctx, cases):
 
 def run(ctx):
     from ak import short_uuid as su
+    su._ALPHA_IS_STR = isinstance(su._ALPHABET, str)
     su._ALPHABET_ORIG = list(su._ALPHABET)
-    su._INDEX_ALPHABET_ORIG = dict(su._INDEX_ALPHABET)
+    su._INDEX_ALPHABET_ORIG = dict((c, i) for i, c in enumerate(su._ALPHABET_ORIG))
     ctx.assumptions += [
         'TLC (tla2tools 1.8) evaluates the specs correctly',
         'real-size UUIDs are covered by boundary-directed and seeded random samples, not exhaustively',
@@ -306,8 +309,9 @@ def run(ctx):
 
 def replay(ctx, case):
     from ak import short_uuid as su
+    su._ALPHA_IS_STR = isinstance(su._ALPHABET, str)
     su._ALPHABET_ORIG = list(su._ALPHABET)
-    su._INDEX_ALPHABET_ORIG = dict(su._INDEX_ALPHABET)
+    su._INDEX_ALPHABET_ORIG = dict((c, i) for i, c in enumerate(su._ALPHABET_ORIG))
     k = case['kind']
     if k in ('small-enc', 'small-dec'):
         base, ln, mx = case['instance']
